@@ -72,7 +72,9 @@ TRUSTED = ["HDF5/h5py (groups, hard/soft/external links, attributes, file modes,
            "case enumeration uses the model's state digest to visit each reachable state once (selection only, no verdict)"]
 ASSUMPTIONS = [
     "a step the model marks as an unmodelled h5py corner ends the history without a verdict (counted in stats as "
-    "corner:<reason>; the step is not executed): (1) 'hard link below its own target (cycle)' and 'cyclic namespace' — "
+    "corner:<reason>; the step is not executed, except that a step leaving a cyclic namespace made of soft/external "
+    "links IS executed and existence, is_cooler and the root attribute are compared, only list_coolers and the reads "
+    "being left out): (1) 'hard link below its own target (cycle)' and 'cyclic namespace' — "
     "since fix D26 the direct spellings (same-file mv/ln/ln -s with the destination equal to or under the source path) "
     "are refused with ValueError and ARE checked (regression guard); what remains without a verdict are cycles that "
     "arise only through links (ln/mv whose destination resolves, through a soft link, inside the linked group; soft "
@@ -404,8 +406,10 @@ class Sess:
                 if why:
                     # under the variant that explains everything seen so far this step has no verdict
                     return ("corner", why)
-                if self._canon(res[k]) == impl:
-                    return ("ok", sub, first, vops)
+                # a file whose namespace is cyclic under this variant: its listing/reads are not compared
+                masked = _mask(impl, self._cyclic(res[k]))
+                if self._canon(res[k]) == masked:
+                    return ("ok", sub, first, vops, masked)
         return None
 
     def step(self, op, alt):
@@ -430,7 +434,8 @@ class Sess:
         if ex is not None and ex[0] == "corner":
             return ex
         if ex is not None:
-            _, sub, first, vops = ex
+            _, sub, first, vops, impl = ex
+            cyc = cyc | self._cyclic({"obs": impl["obs"]})
             self.vops = vops
             self.flags = {f for f in FLAGS if vops[-1]["v"][f]}
             self.trace.append(impl)
@@ -444,6 +449,16 @@ class Sess:
 
 def _strip(o):
     return {k: v for k, v in o.items() if k != "v"}
+
+
+def _mask(impl, cyc):
+    if not cyc:
+        return impl
+    out = json.loads(json.dumps(impl))
+    for f in cyc:
+        out["obs"][f]["list"] = "cyclic"
+        out["obs"][f]["read"] = {}
+    return out
 
 
 def _diff(impl, mod):
@@ -859,19 +874,19 @@ def shrink(name, case):
         # the failing single history first
         r = CHECKS[name](case)
         if isinstance(r, dict) and r.get("mismatch") and "ops" in r and "known" not in r:
-            yield {"ops": r["ops"]}
+            yield {"ops": r["ops"], "layout": case.get("layout", "flat")}
         return
     if name not in ("history", "fan", "errclass"):
         return
     ops = case["ops"]
     for i in range(len(ops) - 1):
-        yield {"ops": ops[:i] + ops[i + 1:]}
+        yield {"ops": ops[:i] + ops[i + 1:], "layout": case.get("layout", "flat")}
     for i in range(len(ops) - 1, 0, -1):
-        yield {"ops": ops[:i]}
+        yield {"ops": ops[:i], "layout": case.get("layout", "flat")}
     for i, o in enumerate(ops):
         if o.get("overwrite"):
             o2 = {k: v for k, v in o.items() if k != "overwrite"}
-            yield {"ops": ops[:i] + [o2] + ops[i + 1:]}
+            yield {"ops": ops[:i] + [o2] + ops[i + 1:], "layout": case.get("layout", "flat")}
 
 
 def escalate(name, case, rng):
@@ -882,7 +897,7 @@ def escalate(name, case, rng):
     worker_init()
     r = _fan(case, cls=False)
     if isinstance(r, dict) and r.get("mismatch") and "known" not in r:
-        c = {"ops": r["ops"]} if "ops" in r else case
+        c = {"ops": r["ops"], "layout": case.get("layout", "flat")} if "ops" in r else case
         return {"check": "history" if "ops" in c else "fan", "case": c, "result": r}
     return None
 
